@@ -125,6 +125,9 @@ def Tx.feeRate (t : Tx) : Nat := t.fee / t.weight
 def Tx.acceptFee (c : Cfg) (t : Tx) : Nat := t.weight * c.feeBase
 def Tx.lockHeight (t : Tx) : Nat :=
   t.kers.foldr (fun k acc => match k.ker with | .hl _ l => max acc l | _ => acc) 0
+/-- `TxKernel::is_nrd` -/
+def PKer.isNrd (k : PKer) : Bool := match k.ker with | .nrd .. => true | _ => false
+/-- `tx.kernels().iter().any(|k| k.is_nrd())`: SOME kernel of the transaction, wherever it sorts -/
 def Tx.hasNrd (t : Tx) : Bool := t.kers.any fun k => match k.ker with | .nrd .. => true | _ => false
 
 def emptyTx : Tx := { ins := [], outs := [], kers := [] }
@@ -227,11 +230,12 @@ def nrdTooRecent (c : Ctx) (t : Tx) : Bool :=
     | _ => false
 
 /-- `Chain::validate_tx` through the adapter: no output duplicates an unspent one, every input
-is unspent (both surface as `PoolError::Other`), NRD relative heights -/
+is unspent (both surface as `PoolError::Other`), NRD relative heights (`apply_kernel_rules`
+returns `Ok` at once while `global::is_nrd_enabled()` is false) -/
 def chainValidateTx (c : Ctx) (t : Tx) : Option Err :=
   if t.outs.any c.head.has then some "Other"
   else if !(t.ins.all c.head.has) then some "Other"
-  else if nrdTooRecent c t then some "NRDKernelRelativeHeight"
+  else if c.cfg.nrdEnabled && nrdTooRecent c t then some "NRDKernelRelativeHeight"
   else none
 
 /-- `impl From<transaction::Error> for PoolError` (what `?` applies inside pool.rs): a duplicate NRD
@@ -442,7 +446,10 @@ def TxPool.deaggregateTx (s : TxPool) (e : Entry) : Except Err Entry :=
     | .ok t => .ok { tx := t, src := .deaggregate }
   else .ok e
 
-/-- `verify_kernel_variants` -/
+/-- `verify_kernel_variants`: the rules per kernel variant.  `tx.kernels().iter().any(|k|
+k.is_nrd())` looks at EVERY kernel of the transaction (kernels are kept sorted by hash: which one
+comes first is an accident of the excess), then the feature flag `global::is_nrd_enabled()`
+(false on mainnet), then the header version of the head. -/
 def verifyKernelVariants (c : Ctx) (t : Tx) : Res :=
   if t.hasNrd then
     if !c.cfg.nrdEnabled then some "NRDKernelNotEnabled"
@@ -594,7 +601,22 @@ def mkBlock (c : Ctx) (a : Tx) (cbId : Nat) : GV.Chain.Blk :=
 
 def freshId (c : Ctx) : Nat := (c.outs.map (·.id)).foldr max 0 + 1
 
-/-- does the chain model accept the block built from the mineable set? -/
+/-- `TxKernel::is_nrd` on a kernel of a block -/
+def kerIsNrd (k : Ker) : Bool := match k with | .nrd .. => true | _ => false
+
+/-- `Block::verify_nrd_kernels_for_header_version` (core/src/core/block.rs), the feature-flag
+half: while `global::is_nrd_enabled()` is false a block with an NRD kernel ANYWHERE in it is
+invalid (`NRDKernelNotEnabled`).  The flag is the one `verify_kernel_variants` reads
+(`Cfg.nrdEnabled`); the header-version half is `GV.Chain.nrdEraViolation` inside `validateBody`.
+(`Model/Chain.lean` itself has no flag: the chain domain runs with NRD enabled.) -/
+def blockNrdGate (nrdEnabled : Bool) (b : GV.Chain.Blk) : Option Err :=
+  if b.kers.any kerIsNrd && !nrdEnabled then
+    some "Block:NRDKernelNotEnabled"
+  else none
+
+/-- does the chain model accept the block built from the mineable set?  (`process_block`: the NRD
+feature-flag gate with the SAME flag the pool's admission reads, then `validateBody` /
+`applyBlock` of the chain model) -/
 def mineVerdict (c : Ctx) (txs : List Tx) : Bool :=
   match aggregate txs with
   | .error _ => false
@@ -604,6 +626,7 @@ def mineVerdict (c : Ctx) (txs : List Tx) : Bool :=
     let outs := c.outs ++ [{ id := cb, cb := true, v := p.reward + a.fee }]
     let b := mkBlock c a cb
     decide (a.weight + 24 ≤ min c.cfg.maxBlockW (max c.cfg.mineW 24)) &&
+    (blockNrdGate c.cfg.nrdEnabled b).isNone &&
     (GV.Chain.validateBody p outs b (sumVals outs b.ins)).isNone &&
     (match GV.Chain.applyBlock p c.head b with | .ok _ => true | .error _ => false)
 
